@@ -11,6 +11,7 @@ from mc.engine import Res, digest, viol
 from mc.model import tabulate
 
 ID = "C02"
+CHUNK = 100
 RULE = ("states = (multiset of <=N respondents, insertion config) per schema, all enumerated; "
         "non-trivial = some cell has a positive table base; distinct = distinct (schema, base "
         "tensors observed)")
